@@ -660,3 +660,10 @@ package tacquito
 
 //@ func (r Request) Fields(keys ...ContextKey) (m map[string]string)
 //@   modifies *
+
+//@ func SetAuthorReplyArgs$1(a *AuthorReply)
+//@   requires a != nil
+//@   modifies a.Args
+//@   ensures len(a.Args) == len(args)
+//@   loop 1 invariant -1 <= rangeindex && rangeindex < len(args)
+//@   loop 1 invariant len(v) == rangeindex + 1
